@@ -189,6 +189,110 @@ public:
         explain_all(op, obs, pr, &rows, now, viol);
     }
 
+    // After a violation whose only visible effect is on *which keys are resident* (a wrong or an extra victim,
+    // an entry lost), the follower can adopt what the audit found and carry on with the same case, so that the
+    // clauses of other properties still get evaluated on the rest of the history.  Sound only if every key the
+    // implementation holds is one whose metadata the specification knows (same value, same count): otherwise
+    // the case ends here.  'after_audit_stage' says whether stage one of the failing step had been committed.
+    bool try_resync(const Op& op, const Res& obs, const Probe& pr, const std::vector<AuditRow>& rows, int64_t now, bool after_audit_stage)
+    {
+        const std::vector<State>& pres = after_audit_stage ? prev : cands;
+        if (pres.empty())
+            return false;
+        State P = pres[0];
+        model.expire(P, now);
+        std::vector<State> targets;
+        if (after_audit_stage)
+        {
+            for (auto& c : cands)
+                targets.push_back(c);
+        }
+        else
+        {
+            std::vector<Outcome> outs;
+            if (!model.step(pres[0], op, now, outs))
+                return false;
+            for (auto& o : outs)
+                if (res_equal(op, o.res, obs))
+                    targets.push_back(o.st);
+            // a call that merely *reported* something wrong (a count, a bool) may still have done what the
+            // specification says: then any outcome whose state the audit confirms will do
+            if (targets.empty())
+                for (auto& o : outs)
+                    targets.push_back(o.st);
+        }
+        for (auto& tg : targets)
+            if (resync_to(tg, P, pr, rows))
+                return true;
+        return false;
+    }
+    bool resync_to(State target, const State& P, const Probe& pr, const std::vector<AuditRow>& rows)
+    {
+        for (size_t k = 0; k < rows.size() && k < target.k.size(); ++k)
+        {
+            if (!rows[k].looked)
+                continue;
+            KS& e = target.k[k];
+            if (rows[k].val)
+            {
+                if (e.st == LIVE)
+                {
+                    if (*rows[k].val != e.val)
+                        return false;
+                    if (kind_has_counts(model.cfg.kind) && (!rows[k].cnt || *rows[k].cnt != e.count))
+                        return false;
+                }
+                else
+                {
+                    const KS& pk = P.k[k];
+                    if (pk.st != LIVE || pk.val != *rows[k].val)
+                        return false;
+                    if (kind_has_counts(model.cfg.kind) && (!rows[k].cnt || *rows[k].cnt != pk.count))
+                        return false;
+                    e = pk; // the specification's victim was not the one evicted
+                }
+            }
+            else if (e.st == LIVE)
+            {
+                e.st  = ABSENT;
+                e.why = W_EVICTED;
+            }
+        }
+        int live = target.live();
+        if (!model.ttl())
+        {
+            if (pr.size != (uint64_t)live)
+                return false;
+        }
+        else if (model.utm())
+        {
+            // the audit's lookups have purged: nothing expired may still be counted
+            if (pr.size != (uint64_t)live)
+                return false;
+            Model::clear_u(target);
+            target.purged = true;
+        }
+        else
+        {
+            if (pr.size < (uint64_t)live || pr.size > (uint64_t)(live + target.ucount()))
+                return false;
+            target.r = (int)(pr.size - (uint64_t)live);
+            if (target.r == 0)
+                Model::clear_u(target);
+        }
+        if (kind_has_capacity(model.cfg.kind) && (pr.size > (uint64_t)model.cfg.cap || pr.cap != (uint64_t)model.cfg.cap))
+            return false;
+        cands.clear();
+        cands.push_back(std::move(target));
+        looked_cur.assign(rows.size(), 0);
+        for (size_t k = 0; k < rows.size(); ++k)
+            looked_cur[k] = rows[k].looked ? 1 : 0;
+        rr_pending = false;
+        ++resyncs;
+        return true;
+    }
+    int resyncs{0};
+
     // C15 statistical clause, evaluated at the end of a case.
     bool rr_spread_check(Violation& viol)
     {
@@ -606,10 +710,17 @@ private:
             }
             if (t.empty())
                 t.insert("UNATTRIBUTED.result");
-            return;
+            if (!audit)
+                return;
+            // with an audit at hand, also look at what the op did to the resident keys (a call that reports the
+            // wrong count may, in addition, have removed a live entry): judged against every outcome
+            for (auto& o : outs)
+                keep.push_back(o);
+            if (keep.empty())
+                return;
         }
 
-        // ---- result is explained; the contradiction is in size() or in the audit ------------------
+        // ---- the contradiction is in size() or in the audit ---------------------------------------
         // keys this op legitimately wrote / removed
         std::vector<char> wrote(P.k.size(), 0), erased(P.k.size(), 0);
         uint64_t          dead_on_arrival = 0;
